@@ -74,3 +74,36 @@ Definition mut_enum_value_index (eid : N) (old new : Z) (r : rnet) : rnet :=
                     rm_name := rm_name m; rm_desc := rm_desc m; rm_static := rm_static m; rm_canid := rm_canid m;
                     rm_id := rm_id m; rm_size := rm_size m; rm_byteorder := rm_byteorder m; rm_cycle := rm_cycle m;
                     rm_sigs := map (upd_enum_sig eid old new) (rm_sigs m) |}) (rn_msgs x) |}) (rb_nifs b) |}) (rt_buses r) |}.
+
+(* Node.UpdateID as the raw dump sees it: besides the interface's id ([mut_node_id] of Model.v) the
+   node id carried by every receiver entry of that node changes too ([rr_id], the key of the saver's
+   node table).  Found by the mutator tie: Model.v's [mut_node_id] alone leaves [rr_id] stale.  Not
+   modelled: the CAN-IDs of the node's non-static messages, recomputed by the bus's builder from
+   (priority, message id, node id) - the priority is not in the raw network. *)
+Definition set_recv_id (h : N) (new : Z) (rc : rrecv) : rrecv :=
+  if N.eqb (rr_h rc) h
+  then {| rr_h := rr_h rc; rr_name := rr_name rc; rr_eid := rr_eid rc; rr_num := rr_num rc; rr_id := new;
+          rr_attrs := rr_attrs rc |}
+  else rc.
+Definition map_msgs (f : rmsg -> rmsg) (r : rnet) : rnet :=
+  {| rt_name := rt_name r; rt_desc := rt_desc r;
+     rt_buses := map (fun b =>
+       {| rb_h := rb_h b; rb_attrs := rb_attrs b; rb_builder := rb_builder b; rb_name := rb_name b;
+          rb_desc := rb_desc b; rb_baud := rb_baud b;
+          rb_nifs := map (fun x =>
+            {| rn_h := rn_h x; rn_attrs := rn_attrs x; rn_name := rn_name x; rn_desc := rn_desc x; rn_id := rn_id x;
+               rn_msgs := map f (rn_msgs x) |}) (rb_nifs b) |}) (rt_buses r) |}.
+Definition mut_node_id_full (h : N) (new : Z) (r : rnet) : rnet :=
+  map_msgs (fun m => set_msg_recv (map (set_recv_id h new) (rm_recv m)) m) (mut_node_id h new r).
+(* comparison mask for Node.UpdateID: the computed CAN-IDs of the non-static messages sent by node [h] *)
+Definition mask_node_canids (h : N) (r : rnet) : rnet :=
+  {| rt_name := rt_name r; rt_desc := rt_desc r;
+     rt_buses := map (fun b =>
+       {| rb_h := rb_h b; rb_attrs := rb_attrs b; rb_builder := rb_builder b; rb_name := rb_name b;
+          rb_desc := rb_desc b; rb_baud := rb_baud b;
+          rb_nifs := map (fun x =>
+            if N.eqb (rn_h x) h
+            then {| rn_h := rn_h x; rn_attrs := rn_attrs x; rn_name := rn_name x; rn_desc := rn_desc x; rn_id := rn_id x;
+                    rn_msgs := map (fun m => if rm_static m then m
+                                             else set_msg_scalars (rm_name m) false 0 (rm_id m) m) (rn_msgs x) |}
+            else x) (rb_nifs b) |}) (rt_buses r) |}.
